@@ -40,6 +40,11 @@ def amount_cases():
                         for form, sign in (('%s', 1), ('-%s', -1), ('(%s)', -1), (' %s ', 1), ('+%s', 1)):
                             yield form % (cur + body), ('.' if us else ','), sign * val
                         yield '(%s%s)' % (cur, body), ('.' if us else ','), -val
+                        if cur:
+                            # the currency symbol may stand outside the parentheses, or after the number
+                            yield '%s(%s)' % (cur, body), ('.' if us else ','), -val
+                            yield '(%s) %s' % (body, cur), ('.' if us else ','), -val
+                            yield '%s %s' % (body, cur), ('.' if us else ','), val
                         yield '%s %s' % (cur, body) if cur else body, ('.' if us else ','), val
 
 
@@ -96,6 +101,8 @@ ROWS = [
     ['', 'NO DATE', '1.00', 'x', ''],
     ['01/17/2025', 'THREE CELLS', '9.00'],
     ['01/18/2025', 'FOUR CELLS', '8.00', 'k4'],
+    # every cell a description template could take its text from is blank: under a template made of placeholders only the description is empty
+    ['01/19/2025', '  ', '6.00', '', ''],
 ]
 FORMATS = [
     ('{date:%m/%d/%Y}, {description}, {amount}', None),
@@ -103,17 +110,18 @@ FORMATS = [
     ('{date:%m/%d/%Y}, {description}, {+amount}, {kind}', None),
     ('{date:%m/%d/%Y}, {memo}, {amount}, {kind}', '{kind}: {memo}'),
     ('{date:%m/%d/%Y}, {_}, {amount}, {description}', None),
+    ('{date:%m/%d/%Y}, {memo}, {amount}, {kind}', '{memo}{kind}'),
 ]
 
 
 def spec_amount(cell, sep):
-    s = cell.strip()
+    s = cell
+    for c in '$€£¥':
+        s = s.replace(c, '')            # a currency symbol says nothing about the number, wherever it stands
+    s = s.strip()
     neg = s.startswith('(') and s.endswith(')')
     if neg:
-        s = s[1:-1]
-    for c in '$€£¥':
-        s = s.replace(c, '')
-    s = s.strip()
+        s = s[1:-1].strip()
     if sep == ',':
         s = s.replace('.', '').replace(' ', '').replace('\u00a0', '').replace('\u202f', '').replace(',', '.')
     else:
@@ -231,6 +239,13 @@ def check_special_files():
         ('bom_semicolon_no_header', ';', False, '\ufeff2024-01-01;ALPHA;5.00\n2024-01-02;BETA;6.00\n', [('ALPHA', 5.0), ('BETA', 6.0)]),
         ('bom_regex_no_header', 'regex:^(\\S+) (\\w+) (-?[\\d.]+)$', False, '\ufeff2024-01-01 ALPHA 5.00\n2024-01-02 BETA 6.00\n', [('ALPHA', 5.0), ('BETA', 6.0)]),
     ]
+    # a line of the file ends at a line break, not at the other characters str.splitlines() breaks at (U+2028, form feed, NEL ...): such a character inside a cell is text
+    cases.append(('regex_rows_with_unicode_separators_in_a_cell', 'regex:^(\\S+) (.+) (-?[\\d.]+)$', True,
+                  'date description amount\n2024-01-01 ALPHA\u2028ONE 5.00\n2024-01-02 BETA 6.00\n2024-01-03 GAM\x0cMA 7.00\n2024-01-04 DEL\x85TA 8.00\n',
+                  [('ALPHA\u2028ONE', 5.0), ('BETA', 6.0), ('GAM\x0cMA', 7.0), ('DEL\x85TA', 8.0)]))
+    # the header is one CSV record, not one line of text: a quoted header cell may contain a line break
+    cases.append(('header_cell_with_line_break', None, True, 'Date,Description,"Amount\n"\n2024-01-01,ALPHA,5.00\n2024-01-02,BETA,6.00\n', [('ALPHA', 5.0), ('BETA', 6.0)]))
+    cases.append(('header_cell_with_line_break_semicolon', ';', True, 'Date;"Descr\niption";"Amount\n"\n2024-01-01;ALPHA;5.00\n2024-01-02;BETA;6.00\n', [('ALPHA', 5.0), ('BETA', 6.0)]))
     # the two-character text backslash-t (what `delimiter: '\\t'` in single quotes gives in YAML) means tab, as the documentation says
     cases.append(('backslash_t_delimiter', '\\t', False, '2024-01-01\tALPHA\t5.00\n2024-01-02\tBETA\t6.00\n', [('ALPHA', 5.0), ('BETA', 6.0)]))
     # a byte that is not UTF-8 in one row (a Latin-1 export): the other rows are read as if that row were not there or were read with a replacement
@@ -251,6 +266,11 @@ def check_special_files():
         except Exception as e:
             O.fail('C05.parse_generic_csv.raises', w, want, '%s: %s' % (type(e).__name__, e), 'parse_generic_csv on the file text given')
             continue
+        if want is None:
+            if ('BETA', 6.0) not in got or len(got) > 2:
+                O.fail('C05.parse_generic_csv.rows', w, "the row 'BETA' 6.00 is read whatever happens to the row with the invalid byte", got, 'parse_generic_csv on the file bytes given')
+        elif got != want:
+            O.fail('C05.parse_generic_csv.rows', w, want, got, 'parse_generic_csv on the file text given')
     # a delimiter setting that is none of the documented forms is refused, not silently read as comma (every row would be dropped without a word)
     for bad in ('||', 'tabs', '; '):
         O.case(('special', 'unsupported_delimiter', bad))
@@ -266,11 +286,6 @@ def check_special_files():
         if got == [] or isinstance(got, str):
             O.fail('C05.unsupported_delimiter_read_as_comma', {'fn': 'parse_generic_csv', 'special': 'unsupported_delimiter', 'delimiter': bad}, 'ValueError naming the delimiter (or the rows)', got,
                    'resolve_source_format + parse_generic_csv with a delimiter that is not None / tab / one character / regex:...')
-        if want is None:
-            if ('BETA', 6.0) not in got or len(got) > 2:
-                O.fail('C05.parse_generic_csv.rows', w, "the row 'BETA' 6.00 is read whatever happens to the row with the invalid byte", got, 'parse_generic_csv on the file bytes given')
-        elif got != want:
-            O.fail('C05.parse_generic_csv.rows', w, want, got, 'parse_generic_csv on the file text given')
 
 
 def check_source_settings():
